@@ -683,6 +683,27 @@ func (c *VerifCtx) chanDisc(v ssa.Value) string {
 	return c.fieldDisc[nt.Obj().Name()+"."+st.Field(fa.Field).Name()].Kind
 }
 
+// fieldName: "Type.field" of the struct field a value was loaded from.
+func (c *VerifCtx) fieldName(v ssa.Value) string {
+	u, ok := v.(*ssa.UnOp)
+	if !ok || u.Op != token.MUL {
+		return "?"
+	}
+	fa, ok := u.X.(*ssa.FieldAddr)
+	if !ok {
+		return "?"
+	}
+	pt, ok := fa.X.Type().Underlying().(*types.Pointer)
+	if !ok {
+		return "?"
+	}
+	nt, ok := types.Unalias(pt.Elem()).(*types.Named)
+	if !ok {
+		return "?"
+	}
+	return nt.Obj().Name() + "." + nt.Underlying().(*types.Struct).Field(fa.Field).Name()
+}
+
 // isSink: the called function value is loaded from a struct field declared
 // `field T.f sink`: byte-slice arguments are appended to the ghost wire log.
 func (c *VerifCtx) isSink(v ssa.Value) bool {
